@@ -36,14 +36,17 @@ def main():
         src = sys.argv[sys.argv.index("--src") + 1]
     only_check = "--recheck" in sys.argv
     dst = os.path.join(ROOT, "seeded", f"{pid}-{n}")
+    if "--name" in sys.argv:
+        dst = os.path.join(ROOT, "seeded", sys.argv[sys.argv.index("--name") + 1])
     if only_check:
         src = dst
     patch = os.path.join(src, "patch.diff")
     demo = os.path.join(src, "demo_test.go")
     meta = json.load(open(os.path.join(src, "meta.json")))
-    pkg = meta.get("demo_pkg_dir", "").strip("/").replace("/tmp/seed-%s/" % pid, "")
+    pkg = meta.get("demo_pkg_dir", "").strip("/")
     if pkg.startswith("tmp/"):
         pkg = pkg.split("/", 2)[2]
+    pkg = pkg.strip("./")
     log = {"confirmed_at": time.strftime("%Y-%m-%dT%H:%M:%S")}
     demo_name = "zz_seed_demo_test.go"
 
@@ -85,7 +88,7 @@ def main():
             shutil.copy(demo, os.path.join(dst, "demo_test.go"))
         # run our checks against the patched copy
         results = {}
-        props = [pid] + [p for p in sys.argv[3:] if p.startswith("C") and p != pid]
+        props = [pid] + [p for p in sys.argv[3:] if p.startswith("C") and len(p) == 3 and p != pid]
         for prop in props:
             for tier in (("quick",) if "--quick-only" in sys.argv else ("quick", "thorough")):
                 t0 = time.time()
